@@ -68,6 +68,13 @@ func (R *Repository) AddCRL(crlLocations *core.CRLLocations, chains *core.Certif
 	if err != nil {
 		return false, err
 	}
+	if crlAdded {
+		//every later load or update of the entry reads the locations from the store
+		err = R.storeLocationsOfNewEntry(entry, crlLocations)
+		if err != nil {
+			return crlAdded, err
+		}
+	}
 	if R.crlConfig.CDPConfig.CRLFetchModeParsed == config.CRLFetchModeActively {
 		if R.isEntryLoaded(entry) == false {
 			return crlAdded, R.loadActively(entry, chains, crlLocations)
@@ -81,6 +88,16 @@ func (R *Repository) AddCRL(crlLocations *core.CRLLocations, chains *core.Certif
 		R.tryUpdateSignatureCertFromChain(entry, chains)
 	}
 	return crlAdded, nil
+}
+
+func (R *Repository) storeLocationsOfNewEntry(entry *Entry, crlLocations *core.CRLLocations) error {
+	entry.entryLock.Lock()
+	defer entry.entryLock.Unlock()
+	//a persistent store which was already present contains its locations
+	if entry.Loaded || entry.CRLStore == nil {
+		return nil
+	}
+	return entry.CRLStore.UpdateCRLLocations(crlLocations)
 }
 
 func (R *Repository) isEntryLoaded(entry *Entry) bool {
@@ -399,6 +416,10 @@ func (R *Repository) updateEntry(entry *Entry, err error, store crlstore.CRLStor
 		entry.CRLStore.Close()
 		//mark as empty in case someone already acquired the entry and waits for a lock
 		entry.CRLStore = nil
+	} else {
+		//the store now holds a complete accepted crl
+		entry.Loaded = true
+		entry.Chains = nil
 	}
 	return err
 }
